@@ -1,0 +1,105 @@
+//! Verification facade. Compiled only with `--cfg rzmq_verif`.
+//!
+//! Thin constructors and new-type wrappers that give an out-of-crate test harness
+//! access to crate-private building blocks. Nothing in here contains protocol logic;
+//! every method delegates one-to-one to the wrapped item.
+
+use crate::error::ZmqError;
+use crate::message::{FrameBatch, Msg};
+use crate::protocol::zmtp::engine::ZmtpEngine;
+use crate::security::framer::encoder::ZmtpFrameEncoder;
+use crate::security::framer::{ISecureFramer, NullFramer};
+use crate::socket::options::{apply_core_option_value, SocketOptions, ZmtpEngineConfig};
+use bytes::Bytes;
+use std::cell::RefCell;
+use std::sync::Arc;
+
+// --- Schedule points --------------------------------------------------------------------------
+
+thread_local! {
+  static POINT_CB: RefCell<Option<Box<dyn FnMut(&'static str)>>> = const { RefCell::new(None) };
+}
+
+/// Installs (or clears) the schedule-point callback of the calling thread.
+pub fn set_point_callback(cb: Option<Box<dyn FnMut(&'static str)>>) {
+  POINT_CB.with(|c| *c.borrow_mut() = cb);
+}
+
+/// A named schedule point. No-op unless the calling thread installed a callback.
+#[inline]
+pub fn point(label: &'static str) {
+  POINT_CB.with(|c| {
+    // The callback is taken out while it runs so that a re-entrant point() is a no-op.
+    let taken = c.borrow_mut().take();
+    if let Some(mut cb) = taken {
+      cb(label);
+      let mut slot = c.borrow_mut();
+      if slot.is_none() {
+        *slot = Some(cb);
+      }
+    }
+  });
+}
+
+// --- Engine -----------------------------------------------------------------------------------
+
+/// Builds the crate-private engine configuration exactly the way a socket does: default
+/// `SocketOptions`, the socket type name, every `(option id, value)` applied through the
+/// regular option parser, then the regular `From<&SocketOptions>` conversion.
+fn engine_config(socket_type_name: &str, options: &[(i32, Vec<u8>)]) -> Result<ZmtpEngineConfig, ZmqError> {
+  let mut opts = SocketOptions::default();
+  opts.socket_type_name = socket_type_name.to_string();
+  for (id, value) in options {
+    apply_core_option_value(&mut opts, *id, value)?;
+  }
+  Ok(ZmtpEngineConfig::from(&opts))
+}
+
+/// Constructs a `ZmtpEngine` for the given role from public socket options.
+pub fn engine(is_server: bool, socket_type_name: &str, options: &[(i32, Vec<u8>)]) -> Result<ZmtpEngine, ZmqError> {
+  Ok(ZmtpEngine::new(is_server, Arc::new(engine_config(socket_type_name, options)?)))
+}
+
+// --- Frame encoders ---------------------------------------------------------------------------
+
+/// Wrapper around the crate-private write-side frame encoder.
+pub struct FrameEncoder(ZmtpFrameEncoder);
+
+impl FrameEncoder {
+  pub fn new(initial_header_cap: usize, initial_coalesce_cap: usize) -> Self {
+    Self(ZmtpFrameEncoder::new(initial_header_cap, initial_coalesce_cap))
+  }
+  pub fn frame_contiguous(&mut self, batch: &[FrameBatch]) -> Result<Bytes, ZmqError> {
+    self.0.frame_contiguous(batch)
+  }
+  pub fn frame_vectored(&mut self, batch: &[FrameBatch]) -> Result<Vec<Bytes>, ZmqError> {
+    self.0.frame_vectored(batch)
+  }
+}
+
+/// Wrapper around the crate-private pass-through framer (NULL mechanism data phase).
+pub struct PlainFramer(NullFramer);
+
+impl PlainFramer {
+  pub fn new(max_msg_size: i64, sndbatch_count: usize, sndbatch_bytes_physical: usize) -> Self {
+    Self(NullFramer::new(max_msg_size, sndbatch_count, sndbatch_bytes_physical))
+  }
+  pub fn try_read_msg(&mut self, network_buffer: &mut bytes::BytesMut) -> Result<Option<Msg>, ZmqError> {
+    self.0.try_read_msg(network_buffer)
+  }
+  pub fn write_msg_multipart(&mut self, msgs: FrameBatch) -> Result<Bytes, ZmqError> {
+    self.0.write_msg_multipart(msgs)
+  }
+  pub fn write_msg_batch(&mut self, batch: &[FrameBatch]) -> Result<Bytes, ZmqError> {
+    self.0.write_msg_batch(batch)
+  }
+  pub fn write_msg_split(&mut self, msg: Msg) -> Result<(Bytes, Option<Bytes>), ZmqError> {
+    self.0.write_msg_split(msg)
+  }
+  pub fn frame_vectored(&mut self, batch: &[FrameBatch]) -> Result<Vec<Bytes>, ZmqError> {
+    self.0.frame_vectored(batch)
+  }
+  pub fn try_read_msgs_from_bytes(&mut self, data: Bytes, accumulator: &mut bytes::BytesMut) -> Result<Vec<Msg>, ZmqError> {
+    self.0.try_read_msgs_from_bytes(data, accumulator)
+  }
+}
